@@ -25,6 +25,10 @@ class Harness:
     def inputs(self, tier, seed):
         raise NotImplementedError
 
+    def escalated_inputs(self, seed):
+        """Inputs of the escalated scope (used only after a deductive obligation regressed): default = thorough tier."""
+        return self.inputs("thorough", seed)
+
     def check(self, inp):
         """Run the real code on inp; return list of Failure (empty = contract held)."""
         raise NotImplementedError
@@ -47,7 +51,7 @@ def run_harness(h, tier, seed, budget_s=None, max_failures=25, shard=(0, 1)):
     crashed = None
     truncated = False
     try:
-        for idx, inp in enumerate(h.inputs(tier, seed)):
+        for idx, inp in enumerate(h.escalated_inputs(seed) if tier == "escalate" else h.inputs(tier, seed)):
             if idx % shard[1] != shard[0]:
                 continue
             evaluations += 1
@@ -74,7 +78,7 @@ def run_harness(h, tier, seed, budget_s=None, max_failures=25, shard=(0, 1)):
     inner = getattr(h, "cases", 0)
     return {
         "inputs": evaluations, "cases": inner,
-        "harness": h.name, "prop": h.prop, "functions": list(h.functions), "bound": h.bound.get(tier, ""),
+        "harness": h.name, "prop": h.prop, "functions": list(h.functions), "bound": h.bound.get(tier, h.bound.get("thorough", "")),
         "rule": h.rule, "evaluations": inner or evaluations, "distinct_nontrivial": len(keys),
         "exhaustive": bool(h.exhaustive and not truncated and crashed is None),
         "failures": failures, "samples": samples, "crashed": crashed, "seconds": round(time.time() - t0, 2),
